@@ -120,3 +120,38 @@ reg.add(Proc(
     modifies=['$alloc', '$dict', '_bases', '__name__', 'inherit', 'declared', '_super_cache'],
     ensures=_sup_post,
 ))
+
+
+# ------------------------------------------------------------------ later declaration changes: the per-class super cache is dropped
+reg.fields['$changed_log'] = SeqO
+
+
+def _del_super_cache(ex, stmt, st, recv):
+    """del self._super_cache: removes the instance attribute (the class-level default None shows again); AttributeError when absent"""
+    cur = ex.read_field(st, recv.t, '_super_cache')
+    miss = st.clone()
+    miss.assume(cur.t == NONE)
+    ex.raise_(miss, 'AttributeError')
+    st.assume(cur.t != NONE)
+    ex.write_field(st, recv.t, '_super_cache', VNONE)
+    return [(st, symex.Out(symex.FALL))]
+
+
+symex.DELATTR['_super_cache'] = _del_super_cache
+
+
+def _spec_changed(ex, node, st):
+    """super().changed(originally_changed): Specification.changed (C02): recomputation and cascade"""
+    out = []
+    for s, vs in ex.ev_list(node.args, st):
+        s.heap.set('$changed_log', Concat(s.heap.get('$changed_log'), Unit(ex.args['self'].t)))
+        out.append((s, VNONE))
+    return out
+
+
+reg.add(Proc(D + 'Implements.changed', [('self', OBJ), ('originally_changed', OBJ)], source='declarations.py:Implements.changed',
+             calls={'super().changed': _spec_changed}, modifies=['_super_cache', '$changed_log'],
+             ensures=lambda c: [('the-cached-super-specifications-of-this-class-are-dropped', c.h('_super_cache')[c.a.self] == NONE),
+                                ('then-the-specification-is-recomputed-and-dependents-notified', c.h('$changed_log') == Concat(c.h0('$changed_log'), Unit(c.a.self))),
+                                ('caches-of-other-classes-untouched', z3.ForAll([z3.Const('ic_o', Obj)], z3.Implies(
+                                    z3.Const('ic_o', Obj) != c.a.self, c.h('_super_cache')[z3.Const('ic_o', Obj)] == c.h0('_super_cache')[z3.Const('ic_o', Obj)])))]))
